@@ -140,3 +140,14 @@ package remote
 //@ func (*emptyGlobalWrapper).TryAcquire props C09
 //@   modifies *
 //@   ensures [admitted_by_inner] (result ==> held[old(f.FlowControl)] == old(held[f.FlowControl]) + 1) && (!result ==> held[old(f.FlowControl)] == old(held[f.FlowControl]))
+
+// Starting and stopping the remote-limiter reconcile loop must not depend on how often it was started and stopped before
+// (C11): every start derives the loop's context from the SAME root context, which this function never replaces and never
+// cancels; a stop cancels exactly the running loop's own cancel function.
+//@ func (*reconcile).EnsureReconcile props C11
+//@   modifies *
+//@   ensures [root_ctx_kept] r.ctx == old(r.ctx)
+//@   ensures [started_under_root] rateLimiter == flowcontrol.RemoteFlowControls && old(r.cancel) == nil && old(r.clientSets) != nil ==> r.cancel != nil && !old(allocated(r.cancel)) && exists c ref :: {cancelOf(c)} cancelOf(c) == r.cancel && parentOf(c) == old(r.ctx)
+//@   ensures [kept_running] rateLimiter == flowcontrol.RemoteFlowControls && old(r.cancel) != nil ==> r.cancel == old(r.cancel) && cancelled == old(cancelled)
+//@   ensures [stopped] rateLimiter == flowcontrol.LocalFlowControls && old(r.cancel) != nil ==> r.cancel == nil && cancelled[old(r.cancel)]
+//@   ensures [only_own_loop_cancelled] forall f ref :: {cancelled[f]} cancelled[f] && !old(cancelled[f]) ==> f == old(r.cancel)
